@@ -1,119 +1,302 @@
 /-
 Round trip of the precedence-climbing parser over the minimal-parenthesis printer, for any
-precedence table (unbounded tree depth).
+precedence table (unbounded tree depth): binary operators, prefix operators, the conditional and
+the postfix forms.
 -/
 import Anko.Model.Pratt
 
 namespace Anko.Pratt
 variable (T : Tbl)
 
-theorem loop_stop {m t rest} (h : match rest with | Tok.op p :: _ => T.lbp p < m | Tok.atom _ :: _ => False | Tok.lp :: _ => False | _ => True) :
-    PLoop T m t rest (t, rest) := by
+/-- the loop of level `m` stops in front of these tokens -/
+def StopAt (m : Nat) : List Tok → Prop
+  | Tok.op p :: _ => T.lbp p < m
+  | Tok.q :: _ => T.lbp "?" < m
+  | Tok.atom _ :: _ => False
+  | Tok.lp :: _ => False
+  | Tok.lb :: _ => False
+  | Tok.dot :: _ => False
+  | _ => True
+
+theorem loop_stop {m t rest} (h : StopAt T m rest) : PLoop T m t rest (t, rest) := by
   match rest, h with
   | [], _ => exact .stopNil
   | Tok.rp :: _, _ => exact .stopRp
+  | Tok.rb :: _, _ => exact .stopRb
+  | Tok.colon :: _, _ => exact .stopColon
   | Tok.op p :: _, h => exact .stopOp h
+  | Tok.q :: _, h => exact .stopQ h
 
-theorem main (t : Tree) : ∀ c m rest R, m ≤ c → OKRest T c t rest →
-    PLoop T m t rest R → PExpr T m (pr T c t ++ rest) R := by
+/-- what may follow an unparenthesised compound whose right operand `r` is read at level `k` -/
+def BodyRest (k : Nat) (r : Tree) : List Tok → Prop
+  | Tok.op p :: _ => T.lbp p < k ∧ okRest T k r p
+  | Tok.q :: _ => T.lbp "?" < k ∧ okRest T k r "?"
+  | Tok.atom _ :: _ => False
+  | Tok.lp :: _ => False
+  | Tok.lb :: _ => False
+  | Tok.dot :: _ => False
+  | _ => True
+
+theorem bodyRest_ok {k r rest} (h : BodyRest T k r rest) : OKRest T k r rest ∧ StopAt T k rest := by
+  match rest, h with
+  | [], _ => exact ⟨trivial, trivial⟩
+  | Tok.rp :: _, _ => exact ⟨trivial, trivial⟩
+  | Tok.rb :: _, _ => exact ⟨trivial, trivial⟩
+  | Tok.colon :: _, _ => exact ⟨trivial, trivial⟩
+  | Tok.op p :: _, h => exact ⟨h.2, h.1⟩
+  | Tok.q :: _, h => exact ⟨h.2, h.1⟩
+
+/-- the induction hypothesis of the main theorem for one subtree -/
+def IH (t : Tree) : Prop :=
+  ∀ c m rest R, (m ≤ c ∨ okPost T c t) → OKRest T c t rest → PLoop T m t rest R → PExpr T m (pr T c t ++ rest) R
+
+theorem right_operand {r : Tree} (ih : IH T r) (k : Nat) (rest : List Tok) (h : BodyRest T k r rest) :
+    PExpr T k (pr T k r ++ rest) (r, rest) :=
+  ih k k rest (r, rest) (Or.inl (Nat.le_refl _)) (bodyRest_ok T h).1 (loop_stop T (bodyRest_ok T h).2)
+
+/-- a compound spelled `body`, parenthesised exactly when its own level is below the context -/
+theorem wrapped {t : Tree} {own : Nat} {body : List Tok} (P : List Tok → Prop) (hP : ∀ rest, P (Tok.rp :: rest))
+    (hb : ∀ m rest R, m ≤ own → P rest → PLoop T m t rest R → PExpr T m (body ++ rest) R) :
+    ∀ c m rest R, (m ≤ c ∨ own < c) → (own ≥ c → P rest) → PLoop T m t rest R →
+      PExpr T m (wrap own c body ++ rest) R := by
+  intro c m rest R hm hrest hloop
+  unfold wrap
+  split
+  · next hc =>
+    have : m ≤ own := by rcases hm with h | h <;> omega
+    exact hb m rest R this (hrest hc) hloop
+  · next hc =>
+    have hin := hb 0 (Tok.rp :: rest) (t, Tok.rp :: rest) (Nat.zero_le _) (hP rest) .stopRp
+    have : [Tok.lp] ++ body ++ [Tok.rp] ++ rest = Tok.lp :: (body ++ Tok.rp :: rest) := by simp [List.append_assoc]
+    rw [this]
+    exact .mk (.paren hin) hloop
+
+theorem lctx_ge (o : Op) : T.lbp o ≤ lctx T o ∧ lctx T o ≤ T.lbp o + 1 := by unfold lctx; split <;> omega
+
+/-- an operator `q` whose level admits it at the left of `o` binds its own right operand tighter than `o` -/
+theorem lt_rbp_of_lctx_le (o q : Op) (h : lctx T o ≤ T.lbp q) : T.lbp o < T.rbp q ∧ lctx T o ≤ T.rbp q := by
+  unfold lctx at *
+  rcases T.assoc q with h1 | h1 <;> rcases T.assoc o with h2 | h2
+  · simp [h2] at h ⊢; omega
+  · have : ¬ (T.rbp o = T.lbp o) := by omega
+    simp [this] at h ⊢
+    by_cases he : T.lbp o = T.lbp q
+    · have := T.level o q he; omega
+    · omega
+  · simp [h2] at h ⊢; omega
+  · have : ¬ (T.rbp o = T.lbp o) := by omega
+    simp [this] at h ⊢; omega
+
+/-- any tree printed for the left-operand context of `o` may be followed by `o` -/
+theorem key (o : Op) (t : Tree) : ∀ c, lctx T o ≤ c → okRest T c t o := by
+  induction t with
+  | atom _ => intro c _; trivial
+  | bin q _ r' _ ihr' =>
+    intro c hc
+    unfold okRest
+    split
+    · next hq =>
+      have := lt_rbp_of_lctx_le T o q (by omega)
+      exact ⟨this.1, ihr' _ this.2⟩
+    · trivial
+  | un q t' iht' =>
+    intro c hc
+    unfold okRest
+    split
+    · have := T.unary_tightest o
+      have := lctx_ge T o
+      exact ⟨by omega, iht' _ (by omega)⟩
+    · trivial
+  | tern _ _ b _ _ ihb =>
+    intro c hc
+    unfold okRest
+    split
+    · next hq =>
+      have := lt_rbp_of_lctx_le T o "?" (by omega)
+      exact ⟨this.1, ihb _ this.2⟩
+    · trivial
+  | call _ _ _ _ => intro c _; trivial
+  | index _ _ _ _ => intro c _; trivial
+  | slice _ _ _ _ _ _ => intro c _; trivial
+  | member _ _ => intro c _; trivial
+
+/-- at the postfix level every compound is parenthesised -/
+theorem okPost_post (t : Tree) : okPost T T.post t := by
+  have h1 := T.postfix_tightest
+  cases t with
+  | bin o _ _ => have := T.unary_tightest o; show T.lbp o < T.post; omega
+  | un _ _ => exact h1
+  | tern _ _ _ => have := T.unary_tightest "?"; show T.lbp "?" < T.post; omega
+  | _ => trivial
+
+/-- from what may follow a compound to what may follow its body when it is not parenthesised -/
+theorem bodyRest_of_okRest {c own k : Nat} {t r : Tree} {rest : List Tok}
+    (hop : ∀ p, okRest T c t p = if own ≥ c then (T.lbp p < k ∧ okRest T k r p) else True)
+    (hpost : okPost T c t = (own < c)) (hc : own ≥ c) (h : OKRest T c t rest) : BodyRest T k r rest := by
+  match rest, h with
+  | [], _ => trivial
+  | Tok.rp :: _, _ => trivial
+  | Tok.rb :: _, _ => trivial
+  | Tok.colon :: _, _ => trivial
+  | Tok.op p :: _, h =>
+    have h' : okRest T c t p := h
+    rw [hop p, if_pos hc] at h'
+    exact h'
+  | Tok.q :: _, h =>
+    have h' : okRest T c t "?" := h
+    rw [hop "?", if_pos hc] at h'
+    exact h'
+  | Tok.lp :: _, h => have h' : okPost T c t := h; rw [hpost] at h'; omega
+  | Tok.lb :: _, h => have h' : okPost T c t := h; rw [hpost] at h'; omega
+  | Tok.dot :: _, h => have h' : okPost T c t := h; rw [hpost] at h'; omega
+
+theorem main (t : Tree) : IH T t := by
   induction t with
   | atom a =>
     intro c m rest R _ _ hl
     simp only [pr, List.singleton_append]
     exact .mk .atom hl
   | bin o l r ihl ihr =>
-    have hbody : ∀ m rest R, m ≤ T.lbp o →
-        (match rest with | Tok.op p :: _ => T.lbp p < T.rbp o ∧ okRest T (T.rbp o) r p | Tok.atom _ :: _ => False | Tok.lp :: _ => False | _ => True) →
-        PLoop T m (.bin o l r) rest R →
-        PExpr T m (pr T (lctx T o) l ++ [Tok.op o] ++ pr T (T.rbp o) r ++ rest) R := by
-      intro m rest R hm hrest hloop
-      have hr : PExpr T (T.rbp o) (pr T (T.rbp o) r ++ rest) (r, rest) := by
-        apply ihr (T.rbp o) (T.rbp o) rest (r, rest) (Nat.le_refl _)
-        · match rest, hrest with
-          | [], _ => trivial
-          | Tok.rp :: _, _ => trivial
-          | Tok.op p :: _, h => exact h.2
-        · apply loop_stop
-          match rest, hrest with
-          | [], _ => trivial
-          | Tok.rp :: _, _ => trivial
-          | Tok.op p :: _, h => exact h.1
-      have hlctx : T.lbp o ≤ lctx T o := by unfold lctx; split <;> omega
-      have := ihl (lctx T o) m ([Tok.op o] ++ pr T (T.rbp o) r ++ rest) R (by omega) ?_ ?_
-      · simpa [List.append_assoc] using this
-      · show okRest T (lctx T o) l o
-        have key : ∀ (t : Tree) (c : Nat), lctx T o ≤ c → okRest T c t o := by
-          intro t
-          induction t with
-          | atom _ => intro c _; trivial
-          | bin q l' r' _ ihr' =>
-            intro c hc
-            unfold okRest
-            split
-            · next hq =>
-              have hq' : lctx T o ≤ T.lbp q := by omega
-              have hlt : T.lbp o < T.rbp q := by
-                unfold lctx at hq'
-                rcases T.assoc q with h1 | h1 <;> rcases T.assoc o with h2 | h2
-                · simp [h2] at hq'; omega
-                · have : ¬ (T.rbp o = T.lbp o) := by omega
-                  simp [this] at hq'
-                  by_cases he : T.lbp o = T.lbp q
-                  · have := T.level o q he; omega
-                  · omega
-                · simp [h2] at hq'; omega
-                · have : ¬ (T.rbp o = T.lbp o) := by omega
-                  simp [this] at hq'; omega
-              refine ⟨hlt, ihr' _ ?_⟩
-              unfold lctx; split <;> omega
-            · trivial
-        exact key l _ (Nat.le_refl _)
-      · exact .step (by omega) hr hloop
-    intro c m rest R hmc hok hloop
+    intro c m rest R hm hok hloop
     simp only [pr]
-    split
-    · next hc =>
-      have := hbody m rest R (by omega) ?_ hloop
-      · simpa [List.append_assoc] using this
-      · match rest, hok with
-        | [], _ => trivial
-        | Tok.rp :: _, _ => trivial
-        | Tok.op p :: _, h =>
-          simp only [OKRest, okRest] at h
-          simpa [hc] using h
-    · next hc =>
-      have hin := hbody 0 (Tok.rp :: rest) (.bin o l r, Tok.rp :: rest) (Nat.zero_le _) trivial .stopRp
-      have hp : PPrim T ([Tok.lp] ++ (pr T (lctx T o) l ++ [Tok.op o] ++ pr T (T.rbp o) r) ++ [Tok.rp] ++ rest) (.bin o l r, rest) := by
-        have : [Tok.lp] ++ (pr T (lctx T o) l ++ [Tok.op o] ++ pr T (T.rbp o) r) ++ [Tok.rp] ++ rest
-            = Tok.lp :: (pr T (lctx T o) l ++ [Tok.op o] ++ pr T (T.rbp o) r ++ Tok.rp :: rest) := by
-          simp [List.append_assoc]
-        rw [this]
-        exact .paren hin
-      exact .mk hp hloop
+    refine wrapped T (BodyRest T (T.rbp o) r) (fun _ => trivial) ?_ c m rest R ?_ ?_ hloop
+    · intro m rest R hm hrest hloop
+      have hr := right_operand T ihr (T.rbp o) rest hrest
+      have hl := lctx_ge T o
+      have := ihl (lctx T o) m ([Tok.op o] ++ pr T (T.rbp o) r ++ rest) R (Or.inl (by omega))
+        (key T o l _ (Nat.le_refl _)) (.step (by omega) hr hloop)
+      simpa [List.append_assoc] using this
+    · exact hm
+    · intro hc
+      exact bodyRest_of_okRest T (own := T.lbp o) (fun p => by simp only [okRest]) (by simp only [okPost]) hc hok
+  | un o t iht =>
+    intro c m rest R hm hok hloop
+    simp only [pr]
+    refine wrapped T (BodyRest T T.ubp t) (fun _ => trivial) ?_ c m rest R ?_ ?_ hloop
+    · intro m rest R _ hrest hloop
+      have ht := right_operand T iht T.ubp rest hrest
+      have : [Tok.op o] ++ pr T T.ubp t ++ rest = Tok.op o :: (pr T T.ubp t ++ rest) := by simp
+      rw [this]
+      exact .mk (.unary ht) hloop
+    · exact hm
+    · intro hc
+      exact bodyRest_of_okRest T (own := T.ubp) (fun p => by simp only [okRest]) (by simp only [okPost]) hc hok
+  | tern x a b ihx iha ihb =>
+    intro c m rest R hm hok hloop
+    simp only [pr]
+    refine wrapped T (BodyRest T (T.rbp "?") b) (fun _ => trivial) ?_ c m rest R ?_ ?_ hloop
+    · intro m rest R hm hrest hloop
+      have hb := right_operand T ihb (T.rbp "?") rest hrest
+      have ha := iha 0 0 (Tok.colon :: (pr T (T.rbp "?") b ++ rest)) (a, Tok.colon :: (pr T (T.rbp "?") b ++ rest))
+        (Or.inl (Nat.le_refl _)) trivial .stopColon
+      have hl := lctx_ge T "?"
+      have := ihx (lctx T "?") m (Tok.q :: (pr T 0 a ++ Tok.colon :: (pr T (T.rbp "?") b ++ rest))) R (Or.inl (by omega))
+        (key T "?" x _ (Nat.le_refl _)) (.tern (by omega) ha hb hloop)
+      simpa [List.append_assoc] using this
+    · exact hm
+    · intro hc
+      exact bodyRest_of_okRest T (own := T.lbp "?") (fun p => by simp only [okRest]) (by simp only [okPost]) hc hok
+  | call f x ihf ihx =>
+    intro c m rest R _ _ hloop
+    simp only [pr]
+    have hx := ihx 0 0 (Tok.rp :: rest) (x, Tok.rp :: rest) (Or.inl (Nat.le_refl _)) trivial .stopRp
+    have := ihf T.post m (Tok.lp :: (pr T 0 x ++ Tok.rp :: rest)) R (Or.inr (okPost_post T f)) (okPost_post T f) (.call hx hloop)
+    simpa [List.append_assoc] using this
+  | index b i ihb ihi =>
+    intro c m rest R _ _ hloop
+    simp only [pr]
+    have hi := ihi 0 0 (Tok.rb :: rest) (i, Tok.rb :: rest) (Or.inl (Nat.le_refl _)) trivial .stopRb
+    have := ihb T.post m (Tok.lb :: (pr T 0 i ++ Tok.rb :: rest)) R (Or.inr (okPost_post T b)) (okPost_post T b) (.index hi hloop)
+    simpa [List.append_assoc] using this
+  | slice b i j ihb ihi ihj =>
+    intro c m rest R _ _ hloop
+    simp only [pr]
+    have hj := ihj 0 0 (Tok.rb :: rest) (j, Tok.rb :: rest) (Or.inl (Nat.le_refl _)) trivial .stopRb
+    have hi := ihi 0 0 (Tok.colon :: (pr T 0 j ++ Tok.rb :: rest)) (i, Tok.colon :: (pr T 0 j ++ Tok.rb :: rest))
+      (Or.inl (Nat.le_refl _)) trivial .stopColon
+    have := ihb T.post m (Tok.lb :: (pr T 0 i ++ Tok.colon :: (pr T 0 j ++ Tok.rb :: rest))) R (Or.inr (okPost_post T b))
+      (okPost_post T b) (.slice hi hj hloop)
+    simpa [List.append_assoc] using this
+  | member b ihb =>
+    intro c m rest R _ _ hloop
+    simp only [pr]
+    have := ihb T.post m (Tok.dot :: rest) R (Or.inr (okPost_post T b)) (okPost_post T b) (.member hloop)
+    simpa [List.append_assoc] using this
 
 /-- parsing the minimally parenthesised spelling of a tree gives back the tree -/
 theorem roundtrip (t : Tree) : PExpr T 0 (pr T 0 t) (t, []) := by
-  have := main T t 0 0 [] (t, []) (Nat.le_refl _) trivial .stopNil
+  have := main T t 0 0 [] (t, []) (Or.inl (Nat.le_refl _)) trivial .stopNil
   simpa using this
 
 /-- the fully parenthesised spelling parses to the same tree, as a primary followed by `rest` -/
 theorem full_prim (t : Tree) : ∀ rest, PPrim T (prFull t ++ rest) (t, rest) := by
+  have close : ∀ {t : Tree} {ts rest}, PExpr T 0 ts (t, Tok.rp :: rest) → PPrim T (Tok.lp :: ts) (t, rest) := .paren
   induction t with
   | atom a => intro rest; exact .atom
   | bin o l r ihl ihr =>
     intro rest
-    have hl := ihl ([Tok.op o] ++ prFull r ++ [Tok.rp] ++ rest)
-    have hr := ihr ([Tok.rp] ++ rest)
-    have hrE : PExpr T (T.rbp o) (prFull r ++ ([Tok.rp] ++ rest)) (r, Tok.rp :: rest) := .mk hr .stopRp
-    have hloop : PLoop T 0 l (Tok.op o :: (prFull r ++ ([Tok.rp] ++ rest))) (.bin o l r, Tok.rp :: rest) :=
-      .step (Nat.zero_le _) hrE .stopRp
-    have hE : PExpr T 0 (prFull l ++ ([Tok.op o] ++ prFull r ++ [Tok.rp] ++ rest)) (.bin o l r, Tok.rp :: rest) := by
-      refine .mk hl ?_
-      simpa [List.append_assoc] using hloop
-    have : prFull (.bin o l r) ++ rest = Tok.lp :: (prFull l ++ ([Tok.op o] ++ prFull r ++ [Tok.rp] ++ rest)) := by
+    have hr : PExpr T (T.rbp o) (prFull r ++ Tok.rp :: rest) (r, Tok.rp :: rest) := .mk (ihr _) .stopRp
+    have hE : PExpr T 0 (prFull l ++ Tok.op o :: (prFull r ++ Tok.rp :: rest)) (.bin o l r, Tok.rp :: rest) :=
+      .mk (ihl _) (.step (Nat.zero_le _) hr .stopRp)
+    have : prFull (.bin o l r) ++ rest = Tok.lp :: (prFull l ++ Tok.op o :: (prFull r ++ Tok.rp :: rest)) := by
       simp [prFull, List.append_assoc]
     rw [this]
-    exact .paren hE
+    exact close hE
+  | un o t iht =>
+    intro rest
+    have ht : PExpr T T.ubp (prFull t ++ Tok.rp :: rest) (t, Tok.rp :: rest) := .mk (iht _) .stopRp
+    have hE : PExpr T 0 (Tok.op o :: (prFull t ++ Tok.rp :: rest)) (.un o t, Tok.rp :: rest) := .mk (.unary ht) .stopRp
+    have : prFull (.un o t) ++ rest = Tok.lp :: Tok.op o :: (prFull t ++ Tok.rp :: rest) := by
+      simp [prFull, List.append_assoc]
+    rw [this]
+    exact close hE
+  | tern x a b ihx iha ihb =>
+    intro rest
+    have hb : PExpr T (T.rbp "?") (prFull b ++ Tok.rp :: rest) (b, Tok.rp :: rest) := .mk (ihb _) .stopRp
+    have ha : PExpr T 0 (prFull a ++ Tok.colon :: (prFull b ++ Tok.rp :: rest)) (a, Tok.colon :: (prFull b ++ Tok.rp :: rest)) :=
+      .mk (iha _) .stopColon
+    have hE : PExpr T 0 (prFull x ++ Tok.q :: (prFull a ++ Tok.colon :: (prFull b ++ Tok.rp :: rest))) (.tern x a b, Tok.rp :: rest) :=
+      .mk (ihx _) (.tern (Nat.zero_le _) ha hb .stopRp)
+    have : prFull (.tern x a b) ++ rest = Tok.lp :: (prFull x ++ Tok.q :: (prFull a ++ Tok.colon :: (prFull b ++ Tok.rp :: rest))) := by
+      simp [prFull, List.append_assoc]
+    rw [this]
+    exact close hE
+  | call f x ihf ihx =>
+    intro rest
+    have hx : PExpr T 0 (prFull x ++ Tok.rp :: Tok.rp :: rest) (x, Tok.rp :: Tok.rp :: rest) := .mk (ihx _) .stopRp
+    have hE : PExpr T 0 (prFull f ++ Tok.lp :: (prFull x ++ Tok.rp :: Tok.rp :: rest)) (.call f x, Tok.rp :: rest) :=
+      .mk (ihf _) (.call hx .stopRp)
+    have : prFull (.call f x) ++ rest = Tok.lp :: (prFull f ++ Tok.lp :: (prFull x ++ Tok.rp :: Tok.rp :: rest)) := by
+      simp [prFull, List.append_assoc]
+    rw [this]
+    exact close hE
+  | index b i ihb ihi =>
+    intro rest
+    have hi : PExpr T 0 (prFull i ++ Tok.rb :: Tok.rp :: rest) (i, Tok.rb :: Tok.rp :: rest) := .mk (ihi _) .stopRb
+    have hE : PExpr T 0 (prFull b ++ Tok.lb :: (prFull i ++ Tok.rb :: Tok.rp :: rest)) (.index b i, Tok.rp :: rest) :=
+      .mk (ihb _) (.index hi .stopRp)
+    have : prFull (.index b i) ++ rest = Tok.lp :: (prFull b ++ Tok.lb :: (prFull i ++ Tok.rb :: Tok.rp :: rest)) := by
+      simp [prFull, List.append_assoc]
+    rw [this]
+    exact close hE
+  | slice b i j ihb ihi ihj =>
+    intro rest
+    have hj : PExpr T 0 (prFull j ++ Tok.rb :: Tok.rp :: rest) (j, Tok.rb :: Tok.rp :: rest) := .mk (ihj _) .stopRb
+    have hi : PExpr T 0 (prFull i ++ Tok.colon :: (prFull j ++ Tok.rb :: Tok.rp :: rest)) (i, Tok.colon :: (prFull j ++ Tok.rb :: Tok.rp :: rest)) :=
+      .mk (ihi _) .stopColon
+    have hE : PExpr T 0 (prFull b ++ Tok.lb :: (prFull i ++ Tok.colon :: (prFull j ++ Tok.rb :: Tok.rp :: rest))) (.slice b i j, Tok.rp :: rest) :=
+      .mk (ihb _) (.slice hi hj .stopRp)
+    have : prFull (.slice b i j) ++ rest = Tok.lp :: (prFull b ++ Tok.lb :: (prFull i ++ Tok.colon :: (prFull j ++ Tok.rb :: Tok.rp :: rest))) := by
+      simp [prFull, List.append_assoc]
+    rw [this]
+    exact close hE
+  | member b ihb =>
+    intro rest
+    have hE : PExpr T 0 (prFull b ++ Tok.dot :: Tok.rp :: rest) (.member b, Tok.rp :: rest) := .mk (ihb _) (.member .stopRp)
+    have : prFull (.member b) ++ rest = Tok.lp :: (prFull b ++ Tok.dot :: Tok.rp :: rest) := by
+      simp [prFull, List.append_assoc]
+    rw [this]
+    exact close hE
 
 theorem roundtrip_full (t : Tree) : PExpr T 0 (prFull t) (t, []) := by
   have := full_prim T t []
